@@ -21,7 +21,7 @@ func (*c09) Rule() string {
 	return "case = generated accepted journal (negative/zero amounts, trailing zeros, accruals, @performance with 0..3 targets, several same-day assertions incl. multi-balance ones, Unicode names, multi-line descriptions), optionally spread over an include tree; oracle = P1=print(J) succeeds, check(P1) accepts, print(P1)==P1 byte for byte, balance(P1)==balance(J) under 5 flag sets, and the harness's own reader finds in P1 exactly the non-accrued directives of the abstract model (multiset on date, kind, fields); non-trivial = journal with >=10 directives incl. >=1 assertion and (an accrual or a negative amount or a multi-balance assertion); distinct = hash of journal text"
 }
 
-func (k *c09) Setup(c *core.Ctx) (int, error) { return c.N(400, 6000), nil }
+func (k *c09) Setup(c *core.Ctx) (int, error) { return c.N(1500, 15000), nil }
 
 func (*c09) Finish(c *core.Ctx) {
 	c.Assume("how an accrued leg is split into per-period amounts is not judged here (C10); accrued transactions are only required to round-trip (print∘print, equal balances)")
